@@ -377,9 +377,15 @@ def check_C12(tier, seed):
                   max_steps=9 if thorough else 7, acts=acts + ("txn", "tick"), tables="plain,eqlen", kinds=kinds,
                   limits=(0, 1, 2), sample=True, seed=seed, fan=5 if thorough else 4, classify=cl(cc), rotate=True,
                   per_world=150, target=40000 if thorough else 4000)
+    # (c) process death between two flushes of the compactor (threshold 1: one flush per removed version)
+    datahub_stage(v, sd, binary, "C12_crash", ds=["a"], ent=["e1", "e2"], contents=cc[:3], max_batch=2,
+                  max_steps=5, acts=("store", "dup", "compact"), tables="plain", kinds=("ent", "chg", "look", "rel"),
+                  limits=(0, 1), classify=cl(cc[:3]), track_pre=True, replay_fn=CRASH, sample=True, seed=seed, fan=4,
+                  target=2500 if thorough else 350)
     v.assumptions = ["legacy duplicate versions are injected the way the repository's compact_test.go does it",
-                     "flush thresholds 1, 2 and the product default rotate over behaviours",
-                     "racing writers and kills between flushes: concurrency/crash stage (hooks)"]
+                     "flush thresholds 1, 2 and the product default rotate over behaviours (crash children: 1)",
+                     "after a kill between flushes the full feed may still contain duplicates the finished run would have "
+                     "removed; everything else must be unchanged", "writers racing the compactor: not covered"]
     return v.finish(rule=RULE_REPLAY)
 
 
